@@ -4,6 +4,7 @@ package main
 // lazily built key index) under list surgery; value-only verbs.
 
 import (
+	"os"
 	"fmt"
 	"go/constant"
 	"go/token"
@@ -426,17 +427,13 @@ func structuralMutators(c *Ctx) map[*ssa.Function]bool {
 			ForEachCall(fn, true, func(site ssa.CallInstruction, in *ssa.Function) {
 				if cal := site.Common().StaticCallee(); cal != nil && direct[cal] {
 					// only if the receiver/argument is not a fresh object of this function
-					if len(site.Common().Args) > 0 {
-						if _, fresh := site.Common().Args[0].(*ssa.Alloc); fresh {
-							return
-						}
-						if call, isCall := site.Common().Args[0].(*ssa.Call); isCall {
-							if cn := CalleeName(&call.Call); strings.Contains(cn, "NewMlrmap") || strings.Contains(cn, "newMlrmap") {
-								return
-							}
-						}
+					if len(site.Common().Args) > 0 && isFreshMap(site.Common().Args[0]) {
+						return
 					}
 					if !direct[fn] {
+						if os.Getenv("MLRLINT_DEBUG_MUTS") != "" {
+							fmt.Fprintf(os.Stderr, "MUT %s via %s at %s\n", SSAName(fn), SSAName(cal), c.Rel(site.Pos()))
+						}
 						direct[fn] = true
 						changed = true
 					}
@@ -524,7 +521,7 @@ func isFreshMap(v ssa.Value) bool {
 		return true
 	case *ssa.Call:
 		n := CalleeName(&x.Call)
-		return strings.Contains(n, "NewMlrmap") || strings.HasSuffix(n, ".Copy")
+		return strings.Contains(n, "NewMlrmap") || strings.Contains(n, "newMlrmap") || strings.HasSuffix(n, ".Copy")
 	case *ssa.Phi:
 		for _, e := range x.Edges {
 			if !isFreshMap(e) {
